@@ -346,24 +346,26 @@ fn c04_classes() -> [Class; 4] {
     [mk(0), mk(1), mk(2), mk(3)]
 }
 
-/// C04 (cache): class lookup is exact for every query string of <= 2 bytes over
+/// C04 (cache): class lookup is exact for every query string of QLEN bytes over
 /// an adversarial alphabet {a, b, $, ., A, 0, m} (prefixes, '$'/'.' variants).
-#[kani::proof]
-#[kani::stub(watto::StringTable::read, crate::verif_support::stubs::strtab_read_model)]
-#[kani::unwind(8)]
-fn c04_cache_class_lookup_exact() {
+/// The query *length* is concrete per harness (a symbolic length costs 350 s).
+fn c04_class_lookup<const QLEN: usize, const NC: usize>() {
     let classes = c04_classes();
-    let cache = cache_of(&classes, &[], &[], &C04_STRINGS);
-    let qb: [u8; 2] = kani::any();
-    let qlen: usize = kani::any();
-    kani::assume(qlen <= 2);
+    // NC == 2: only "a" and "a$" (binary search reads the second class at a symbolic
+    // index from the third probe on; with 4 classes symex alone takes 120 s)
+    let cache = cache_of(&classes[..NC], &[], &[], &C04_STRINGS);
+    let qb: [u8; QLEN] = kani::any();
     let ok = |c: u8| c == b'a' || c == b'b' || c == b'$' || c == b'.' || c == b'A' || c == b'0' || c == b'm';
-    kani::assume(ok(qb[0]) && ok(qb[1]));
-    let q = unsafe { core::str::from_utf8_unchecked(&qb[..qlen]) };
+    let mut i = 0;
+    while i < QLEN {
+        kani::assume(ok(qb[i]));
+        i += 1;
+    }
+    let q = unsafe { core::str::from_utf8_unchecked(&qb) };
     let got = cache.remap_class(q);
     let mut want: Option<&str> = None;
-    let mut i = 0;
-    while i < 4 {
+    i = 0;
+    while i < NC {
         if str_eq(q, C04_OBF_STR[i]) {
             want = Some(C04_ORIG_STR[i]);
         }
@@ -374,8 +376,43 @@ fn c04_cache_class_lookup_exact() {
     let t = Throwable { class: q, message: Some("x") };
     let rt = cache.remap_throwable(&t);
     assert!(rt.is_some() == want.is_some(), "C04: remap_throwable disagrees with remap_class");
-    kani::cover!(want.is_some() && qlen == 2);
-    kani::cover!(want.is_none() && qlen == 2 && qb[0] == b'a');
+    kani::cover!(QLEN > 2 || want.is_some());
+    kani::cover!(want.is_none());
+}
+
+#[kani::proof]
+#[kani::stub(watto::StringTable::read, crate::verif_support::stubs::strtab_read_model)]
+#[kani::unwind(8)]
+fn c04_cache_class_lookup_2classes_q1() {
+    c04_class_lookup::<1, 2>();
+}
+
+#[kani::proof]
+#[kani::stub(watto::StringTable::read, crate::verif_support::stubs::strtab_read_model)]
+#[kani::unwind(8)]
+fn c04_cache_class_lookup_2classes_q2() {
+    c04_class_lookup::<2, 2>();
+}
+
+#[kani::proof]
+#[kani::stub(watto::StringTable::read, crate::verif_support::stubs::strtab_read_model)]
+#[kani::unwind(8)]
+fn c04_cache_class_lookup_q1() {
+    c04_class_lookup::<1, 4>();
+}
+
+#[kani::proof]
+#[kani::stub(watto::StringTable::read, crate::verif_support::stubs::strtab_read_model)]
+#[kani::unwind(8)]
+fn c04_cache_class_lookup_q2() {
+    c04_class_lookup::<2, 4>();
+}
+
+#[kani::proof]
+#[kani::stub(watto::StringTable::read, crate::verif_support::stubs::strtab_read_model)]
+#[kani::unwind(8)]
+fn c04_cache_class_lookup_q3() {
+    c04_class_lookup::<3, 4>();
 }
 
 /// C04 (cache): remap_method answers iff class known, >=1 entry with that name,
